@@ -92,6 +92,34 @@ pub fn run(ctx: &Ctx, spec: &Spec) -> i32 {
             report.violations.push(write_replay(ctx, &format!("corepipe-{}", arch.name()), &bytes, &f));
         }
     }
+    // coverage-guided campaigns with the auditor on (thorough only)
+    for (ai, arch) in spec.archs.iter().copied().enumerate() {
+        let tag = match arch {
+            Arch::X86 => "x86",
+            Arch::A64 => "a64",
+            Arch::Rv => "rv",
+        };
+        let lcfg = (spec.lin_cfg)(ctx, arch);
+        // the target decodes with the configuration named after `@`
+        let owner = if format!("{:?}", lcfg) == format!("{:?}", c09_lin_cfg(ctx, arch)) {
+            "C09"
+        } else if format!("{:?}", lcfg) == format!("{:?}", c13_lin_cfg(ctx, arch)) {
+            "C13"
+        } else {
+            "base"
+        };
+        if format!("{:?}", lcfg) == format!("{:?}", lin_cfg_by_id(owner, ctx, arch)) {
+            crate::fuzzrun::semantic_phase(ctx, &mut ev, &mut report, &format!("alin-{tag}@{owner}"), 1900 + ai as u64, &format!("linear-{}", arch.name()), 240, &|b| {
+                let c = decode_lin(&lcfg, b);
+                let (r, runs) = run_lin_case(ctx, arch, &c, spec.with_audit);
+                finish_case(arch, spec, r, &runs, json!({"linearized": printer::Print::print_to_string(&c.prog, None), "args": c.tuples}))
+            });
+        }
+        crate::fuzzrun::semantic_phase(ctx, &mut ev, &mut report, &format!("acore-{tag}"), 1950 + ai as u64, &format!("corepipe-{}", arch.name()), 240, &|b| {
+            let (r, runs) = run_core_lin_case(ctx, arch, b, spec.with_audit);
+            finish_case(arch, spec, r, &runs, json!({"domain": "generated Core program"}))
+        });
+    }
     if report.violations.is_empty() {
         if let Some(extra) = spec.extra {
             extra(ctx, &mut ev, &mut report);
@@ -132,6 +160,15 @@ pub fn replay(ctx: &Ctx, spec: &Spec, sub: &str, bytes: &[u8], case: &serde_json
     let c = fun_case_from_json(case).unwrap_or_else(|| decode(ctx, arch, bytes));
     let (r, runs) = run_fun_case(ctx, arch, &c.prog, &c.tuples, spec.with_audit);
     finish_case(arch, spec, r, &runs, json!({"source": crate::fun_ast::emit_program(&c.prog)}))
+}
+
+/// the linear-program generator configuration of the checks that share this driver
+pub fn lin_cfg_by_id(id: &str, ctx: &Ctx, arch: Arch) -> LinCfg {
+    match id {
+        "C09" => c09_lin_cfg(ctx, arch),
+        "C13" => c13_lin_cfg(ctx, arch),
+        _ => lin_cfg_for(ctx, arch),
+    }
 }
 
 // ---- C09 ----
